@@ -276,10 +276,11 @@ func c10Corruptions(world, other *rvWorld, base *Update) []c10Cor {
 func TestVerifC10(t *testing.T) {
 	r := vkit.Start(t, "C10", "update-corruptions", 240*time.Second, 1500*time.Second)
 	defer r.Finish()
-	r.Rule = "base updates with 0,1,4,8,9 events of a 8-revocation history; every single corruption of the menu (event value/index +-1, swaps, delete/duplicate/insert, every byte flip / truncation length / extension / algorithm code / shorter well-formed digest of every parent hash, every byte of the signed accumulator blob, key counter +-1, accumulator substituted by every other validly signed one or by another key's, foreign events, the library's unexported-by-tag cache field for the verified accumulator filled in by the sender), thorough: every pair from the reduced menu; x transport {memory, JSON, CBOR, JSON / CBOR with the corruption made on the decoded object, and JSON / CBOR decoded into an Update value that already received and verified the authentic message} x operations {Update.Verify, Witness.Update on witnesses just before / inside / at / ahead of the message's window incl. re-signed accumulators with a later time, Update.Prepend (onto an update with and without events of its own), EventList.Verify}; non-trivial = corruption whose received message differs from the base; oracle: independent validator - success => authentic, rejection => receiver state unchanged"
+	r.Rule = "base updates with 0,1,4,8,9 events of a 8-revocation history; every single corruption of the menu (event value/index +-1, swaps, delete/duplicate/insert, every byte flip / truncation length / extension / algorithm code / shorter well-formed digest of every parent hash, every byte of the signed accumulator blob, key counter +-1, accumulator substituted by every other validly signed one or by another key's, foreign events, the library's unexported-by-tag cache field for the verified accumulator filled in by the sender), thorough: every pair from the reduced menu; x transport {memory, JSON, CBOR, JSON / CBOR with the corruption made on the decoded object, and JSON / CBOR decoded into an Update value that already received and verified the authentic message} ; one received object verified under the issuer's key and then presented under another key (same / other counter); x operations {Update.Verify, Witness.Update on witnesses just before / inside / at / ahead of the message's window incl. re-signed accumulators with a later time, Update.Prepend (onto an update with and without events of its own), EventList.Verify}; non-trivial = corruption whose received message differs from the base; oracle: independent validator - success => authentic, rejection => receiver state unchanged"
 	rvInstallEnv(t, "C10", r.Seed)
 	sk, pk := rvKeys(32, 7)
 	sk2, pk2 := rvKeys(32, 7)
+	_, pk3 := rvKeys(32, 8)
 	_ = pk2
 	var es []*big.Int
 	for i := 0; i < 8; i++ {
@@ -296,6 +297,35 @@ func TestVerifC10(t *testing.T) {
 	forms := []string{"memory", "json", "cbor", "json>corrupt", "cbor>corrupt", "json>used-receiver", "cbor>used-receiver"}
 	for bi, bs := range bases {
 		base := world.Window(bs.a, bs.b, bs.dt)
+		// one received object presented to verifiers holding DIFFERENT keys: accepted under the issuer's key,
+		// it must still be refused under another issuer's key with the same counter and under a key with
+		// another counter - whatever the first verification left in the object
+		if _, mine := r.Next(); mine {
+			for _, form := range []string{"json", "cbor"} {
+				for _, ok2 := range []struct {
+					name string
+					pk   *gabikeys.PublicKey
+				}{{"another issuer's key with the same counter", pk2}, {"a key with another counter", pk3}} {
+					r.Eval()
+					desc := fmt.Sprintf("base %d (%s): verified under the issuer's key, then presented under %s", bi, form, ok2.name)
+					r.Nontrivial(desc)
+					recv, err := c10Transport(c10Wire(base), form)
+					if err != nil {
+						continue
+					}
+					if _, err := recv.Verify(pk); err != nil {
+						r.Violate("C10|authentic-update-rejected", desc+": "+err.Error(), desc)
+						continue
+					}
+					var err2 error
+					pan, _ := vkit.Guard(func() { _, err2 = recv.Verify(ok2.pk) })
+					r.Outcome(fmt.Sprintf("second-key:rejected=%v", pan || err2 != nil))
+					if !pan && err2 == nil {
+						r.Violate("C10|Update.Verify-accepted-under-another-key|after-a-verification-under-the-right-key", desc, desc)
+					}
+				}
+			}
+		}
 		cors := c10Corruptions(world, other, base)
 		var list [][]c10Cor
 		for _, c := range cors {
